@@ -23,7 +23,7 @@ ASSUMPTIONS = [
 ]
 RULE = ("cases from props/C05.py gen(): random POMDPs S 1..6 (S>=3 in 80% of 'bel' cases), A 1..3, O 1..4, rejected when T and O are "
         "invariant under a non-identity state permutation or some T_a is symmetric; 3-6 beliefs per model (corners, faces, interior); "
-        "all (a,o) per case. Kinds: 'bel' (54%; dense, sparse, user-defined model built once; 18% of the dyadic ones get an exactly "
+        "all (a,o) per case. Kinds: 'bel' (54%; all four library combinations Model/SparseModel<MDP::Model/SparseModel> and a user-defined model, built once; 18% of the dyadic ones get an exactly "
         "constant observation column/table), 'tiny' bel cases (10%; some observation has probability 2^-21..2^-33), 'reset' (12%; eight "
         "construction/re-set paths), 'hist' (14%; operation history on one live dense and one live sparse object: constructor, then 2-4 "
         "setter calls with valid and clearly invalid tables through both overloads, belief updates judged after every call against the "
